@@ -317,6 +317,39 @@ func (e *absExec) exec(f *ssa.Function, argSym string, depth int, impl *replImpl
 				}
 			case *ssa.Call:
 				name := methodName(x)
+				if bi, isB := x.Call.Value.(*ssa.Builtin); isB && (bi.Name() == "min" || bi.Name() == "max") && isIntType(x.Type()) {
+					// the built-in min/max over modelled values: the extremum under the ordering at hand
+					cur, okAll := "", true
+					for i, a := range x.Call.Args {
+						sa, ok := symOf(a)
+						if !ok {
+							okAll = false
+							break
+						}
+						if i == 0 {
+							cur = sa
+							continue
+						}
+						op := token.GTR
+						if bi.Name() == "min" {
+							op = token.LSS
+						}
+						better, ok := e.cmp(op, sa, cur)
+						if !ok {
+							okAll = false
+							break
+						}
+						if better {
+							cur = sa
+						}
+					}
+					if !okAll {
+						e.fail = "min/max of a value the order-type domain does not model at " + e.c.pos(x.Pos())
+						return "", false
+					}
+					val[x] = cur
+					continue
+				}
 				switch {
 				case name == "Len" && e.c.isLogCall(x, "Len"):
 					val[x] = "logLen"
@@ -693,7 +726,7 @@ func rulesStatus(c *Ctx) {
 			nMut++
 		}
 	}
-	c.floor("R2", "status recalculation helpers", len(direct)+len(composite)+nMut, 3)
+	c.floor("R2", "status recalculation helpers", len(direct)+len(composite)+nMut, 1)
 
 	// R1: who may write the status
 	nW := 0
